@@ -281,8 +281,25 @@ def _run_twin(job):
         shutil.rmtree(d, ignore_errors=True)
 
 
+def _run_seeded(job):
+    """An archived, independently written breaking change (/verif/seeded/<id>/patch.diff) applied to a scratch copy."""
+    kind, sid, patch, expect_props = job
+    d = _scratch_copy()
+    try:
+        r = subprocess.run(["patch", "-p1", "-s", "-d", d, "-i", patch], capture_output=True, text=True)
+        if r.returncode != 0:
+            return (sid, "STALE", f"archived patch no longer applies: {(r.stdout + r.stderr)[-160:]}", expect_props)
+        res = _check_all(d, expect_props)
+        fired = sorted({x for st, rules in res.values() if st == 1 for x in rules})
+        return (sid, "DETECTED" if fired else "MISSED", f"fired={fired}", expect_props)
+    finally:
+        shutil.rmtree(d, ignore_errors=True)
+
+
 def _dispatch(job):
     try:
+        if job[0] == "seeded":
+            return _run_seeded(job)
         if job[0] == "mutant":
             return _run_mutant(job)
         if job[0] == "revert":
@@ -318,7 +335,20 @@ def main(jobs_n: int = 16, only: str | None = None, jobs: int | None = None) -> 
 
 def sensitivity_audit(prop: str) -> dict:
     """Thorough tier: run the mutants / reverts whose expected rule belongs to ``prop``; recorded in the evidence, never changes the exit status."""
+    import glob
+    import json
+
+    from . import VERIF_ROOT
+
     js = [j for j in jobs(None) if j[0] != "twin" and any(r.startswith(prop + ".") for r in j[-1])]
+    for meta_p in sorted(glob.glob(os.path.join(VERIF_ROOT, "seeded", "*", "meta.json"))):
+        try:
+            meta = json.load(open(meta_p))
+        except Exception:  # noqa: BLE001
+            continue
+        if meta.get("property") == prop:
+            sid = "seeded-" + os.path.basename(os.path.dirname(meta_p))
+            js.append(("seeded", sid, os.path.join(os.path.dirname(meta_p), "patch.diff"), [prop]))
     if not js:
         return {"variants": 0, "detected": 0}
     with Pool(min(16, len(js))) as pool:
